@@ -39,7 +39,10 @@ func wdescrOneF(xs, ws []float64, sorted, fuzzy bool, tag string) {
 	if fuzzy {
 		ps = []float64{0, 0.1, 0.3, 0.5, 0.7, 0.9, 1 - 1e-14, 1 - 1e-15, math.Nextafter(1, 0), 1}
 	}
-	s := stats.Sample{Xs: xs, Weights: ws, Sorted: sorted}
+	winX, xv := newWindow(xs)
+	winW, wv := newWindow(ws)
+	s := stats.Sample{Xs: xv, Weights: wv, Sorted: sorted}
+	again := true
 	var mean, geo, mn, mx float64
 	pct := make([]float64, len(ps))
 	ok := guard("wdescr", func() {
@@ -49,6 +52,12 @@ func wdescrOneF(xs, ws []float64, sorted, fuzzy bool, tag string) {
 		for i, p := range ps {
 			pct[i] = s.Percentile(p)
 		}
+		pct2 := make([]float64, len(ps))
+		for i := len(ps) - 1; i >= 0; i-- {
+			pct2[i] = s.Percentile(ps[i])
+		}
+		mn2, mx2 := s.Bounds()
+		again = sameBits(append([]float64{mean, geo, mn, mx}, pct...), append([]float64{s.Mean(), s.GeoMean(), mn2, mx2}, pct2...))
 	})
 	// weighted Variance / StdDev are documented as not implemented: they must refuse (panic), never
 	// silently answer with the unweighted value
@@ -76,12 +85,12 @@ func wdescrOneF(xs, ws []float64, sorted, fuzzy bool, tag string) {
 	}
 	var mlog float64
 	guard("wdescr", func() { mlog = stats.Sample{Xs: lx, Weights: ws}.Mean() })
-	hx.Printf("case %d kind=wdescr xs=%s ws=%s sorted=%d fuzzy=%d lx=%s mlog=%s emlog=%s wvar=%s wsd=%s ps=%s gmean=%s ggeo=%s gmin=%s gmax=%s gpct=%s tag=%s\n",
-		id, fbList(xs), fbList(ws), sf, fz, fbList(lx), fb(mlog), fb(math.Exp(mlog)), wvar, wsd, fbList(ps), fb(mean), fb(geo), fb(mn), fb(mx), fbList(pct), tag)
+	hx.Printf("case %d kind=wdescr xs=%s ws=%s sorted=%d fuzzy=%d lx=%s mlog=%s emlog=%s wvar=%s wsd=%s ps=%s gmean=%s ggeo=%s gmin=%s gmax=%s gpct=%s kept=%s again=%s tag=%s\n",
+		id, fbList(xs), fbList(ws), sf, fz, fbList(lx), fb(mlog), fb(math.Exp(mlog)), wvar, wsd, fbList(ps), fb(mean), fb(geo), fb(mn), fb(mx), fbList(pct), b2s(winX.kept() && winW.kept(), "1", "0"), b2s(again, "1", "0"), tag)
 	if ok {
 		// K: the float64 instance of the weighted model (Model/Stats/Weighted.lean), bit for bit
 		hx.Printf("obs %d mean=%s geo=%s min=%s max=%s pct=%s\n", id, fb(mean), fb(geo), fb(mn), fb(mx), fbList(pct))
-		hx.Printf("sobs %d mean=ok geo=ok bounds=ok pct=ok unimpl=ok\n", id)
+		hx.Printf("sobs %d mean=ok geo=ok bounds=ok pct=ok unimpl=ok in=kept again=same\n", id)
 	}
 	id++
 }
